@@ -670,12 +670,21 @@ impl Rasn {
                     .options
                     .iter()
                     .map(|o| {
-                        let (_, formatted_type_name) = self.constraints_and_type_name(
+                        let (_, mut formatted_type_name) = self.constraints_and_type_name(
                             &o.ty,
                             &o.name,
                             &name.to_string(),
                             o.is_recursive,
                         )?;
+                        // The variant of a nested anonymous type holds the hoisted delegate
+                        // type (see `format_member_or_option`)
+                        if Self::needs_unnesting(&o.ty) {
+                            formatted_type_name =
+                                self.inner_name(&o.name, &name.to_string()).to_token_stream();
+                            if o.is_recursive {
+                                formatted_type_name = quote!(Box<#formatted_type_name>);
+                            }
+                        }
 
                         let o_name = self.to_rust_enum_identifier(&o.name);
                         map.entry(formatted_type_name.to_string())
